@@ -52,6 +52,13 @@ func pick[T any](t *rapid.T, label string, xs []T) T {
 	return xs[rapid.IntRange(0, len(xs)-1).Draw(t, label)]
 }
 
+// rare is for expensive families: rapid favours the bounds of a range (chance
+// fires in 10-16 % of the draws whatever oneIn is), an interior value is drawn
+// less often than 1/oneIn.
+func rare(t *rapid.T, label string, oneIn int) bool {
+	return rapid.IntRange(0, oneIn-1).Draw(t, label) == oneIn/2
+}
+
 func chance(t *rapid.T, label string, oneIn int) bool {
 	return rapid.IntRange(0, oneIn-1).Draw(t, label) == 0
 }
@@ -1048,6 +1055,9 @@ func modelKey(m NetModel) string {
 	rw := "<none>"
 	if m.Rewrite != nil {
 		rw = "=" + *m.Rewrite
+		if *m.Rewrite == "NOERROR" || *m.Rewrite == "NOERROR;;" {
+			rw = "=" // the same (empty) rewrite in three spellings
+		}
 	}
 	pat := m.Pat
 	if strings.HasSuffix(pat, "/*") {
